@@ -366,6 +366,10 @@ def readBondV2000 (l : Line) : Except Err (Int × Int × Nat) := do
   if j < 1 then .error .overflowError else
   pure (i, j, (bondOfCode t).getD 0)
 
+def hasDup {α : Type} [DecidableEq α] : List α → Bool
+  | [] => false
+  | x :: xs => xs.contains x || hasDup xs
+
 /-- `BondList(n, array)`: range check, each pair sorted.  Arrays with a repeated atom pair are
 outside the model (`_remove_redundant_bonds`). -/
 def mkBondList (n : Nat) (bs : List (Int × Int × Nat)) : Except Err (List (Nat × Nat × Nat)) :=
@@ -374,8 +378,7 @@ def mkBondList (n : Nat) (bs : List (Int × Int × Nat)) : Except Err (List (Nat
     let i := (b.1 - 1).toNat
     let j := (b.2.1 - 1).toNat
     (min i j, max i j, b.2.2)
-  let pairs := out.map fun b => (b.1, b.2.1)
-  if pairs.eraseDups.length ≠ pairs.length then .error unmodelled else .ok out
+  if hasDup (out.map fun b => (b.1, b.2.1)) then .error unmodelled else .ok out
 
 def readV2000 (lines : List Line) : Except Err MolR :=
   match lines with
